@@ -6,33 +6,33 @@ import (
 
 // Knobs steer the seeded scheduler. All probabilities are per scheduler step.
 type Knobs struct {
-	Sync          bool    // time-ordered execution: deliver what is due, fire what expired, else advance the clock
-	PDrop         float64 // drop a deliverable envelope
-	PDup          float64 // deliver a copy and keep the envelope
-	PEarlyTimer   float64 // spurious OnTimeout(current h, current v) before the deadline
-	PStaleTimer   float64 // OnTimeout tagged with another height/view
-	PAdvance      float64 // advance the clock to the next deadline although envelopes are waiting
-	PDelayReset   float64 // leave a node that accepted a block un-Reset for this step
-	PNewTx        float64 // a new transaction appears (gossiped to all pools unless missing)
-	PTxMissing    float64 // probability that a node does not get a new transaction
-	PBadTx        float64 // a new transaction is invalid (only adversaries propose those)
-	PSupply       float64 // supply one requested transaction to a node
-	PUnasked      float64 // OnTransaction with a transaction nobody asked for
-	PRestart      float64 // amnesia restart of a node of RestartSet
-	PCut          float64 // start a partition of CutSet
-	PHeal         float64 // heal the partition
-	PSyncLedger   float64 // a node that is behind copies the next block from a peer
-	PAdv          float64 // adversary move
-	PNotify       float64 // OnNewTransaction to a subscribed node when its pool is non-empty
-	NotifyAll     bool    // deliver OnNewTransaction to every subscribed node as soon as a tx arrives
-	FIFO          bool    // always pick the oldest deliverable envelope / lowest node id (deterministic schedule)
-	SlowNode      int     // node with extra inbound latency (-1: none)
-	SlowExtra     time.Duration
-	ResetDelayMax time.Duration // the application calls Reset up to this long after accepting a block
-	ResetDelayNode int          // only this node delays its Resets (-1: every node)
-	MaxRestarts   int
-	RestartSet    []int
-	CutSet        []int
+	Sync           bool    // time-ordered execution: deliver what is due, fire what expired, else advance the clock
+	PDrop          float64 // drop a deliverable envelope
+	PDup           float64 // deliver a copy and keep the envelope
+	PEarlyTimer    float64 // spurious OnTimeout(current h, current v) before the deadline
+	PStaleTimer    float64 // OnTimeout tagged with another height/view
+	PAdvance       float64 // advance the clock to the next deadline although envelopes are waiting
+	PDelayReset    float64 // leave a node that accepted a block un-Reset for this step
+	PNewTx         float64 // a new transaction appears (gossiped to all pools unless missing)
+	PTxMissing     float64 // probability that a node does not get a new transaction
+	PBadTx         float64 // a new transaction is invalid (only adversaries propose those)
+	PSupply        float64 // supply one requested transaction to a node
+	PUnasked       float64 // OnTransaction with a transaction nobody asked for
+	PRestart       float64 // amnesia restart of a node of RestartSet
+	PCut           float64 // start a partition of CutSet
+	PHeal          float64 // heal the partition
+	PSyncLedger    float64 // a node that is behind copies the next block from a peer
+	PAdv           float64 // adversary move
+	PNotify        float64 // OnNewTransaction to a subscribed node when its pool is non-empty
+	NotifyAll      bool    // deliver OnNewTransaction to every subscribed node as soon as a tx arrives
+	FIFO           bool    // always pick the oldest deliverable envelope / lowest node id (deterministic schedule)
+	SlowNode       int     // node with extra inbound latency (-1: none)
+	SlowExtra      time.Duration
+	ResetDelayMax  time.Duration // the application calls Reset up to this long after accepting a block
+	ResetDelayNode int           // only this node delays its Resets (-1: every node)
+	MaxRestarts    int
+	RestartSet     []int
+	CutSet         []int
 }
 
 // Hooks lets a profile script parts of a run.
@@ -549,8 +549,18 @@ func (c *Cluster) syncOne() bool {
 				continue
 			}
 			if b := m.BlockAt(n.Height() + 1); b != nil {
-				n.appendBlock(b, true)
-				n.Accepted = append(n.Accepted, AcceptRec{Height: b.Idx, Hash: b.Hash(), Clock: c.Clock, Seq: c.seq, Inst: n.Restarts, Synced: true})
+				// the application persists one or several blocks obtained from a peer and then
+				// calls Reset once: the library skips the heights in between
+				more := c.Rng.Intn(3) != 0
+				for b != nil {
+					n.appendBlock(b, true)
+					n.Accepted = append(n.Accepted, AcceptRec{Height: b.Idx, Hash: b.Hash(), Clock: c.Clock, Seq: c.seq, Inst: n.Restarts, Synced: true})
+					c.Stats["synced-blocks"]++
+					if !more {
+						break
+					}
+					b = m.BlockAt(n.Height() + 1)
+				}
 				c.doReset(n)
 				return true
 			}
